@@ -514,6 +514,33 @@ theorem gcPagesTill_bound {B : Nat} {db : Db} {hh tgt : Nat}
   have := Nat.min_le_right (pagesTill B tgt) (((hh + 1) / B - 2) * B)
   omega
 
+theorem gcBase_le (cfg : GcCfg) (new : Nat) : gcBase cfg new ≤ new - cfg.mtb := by
+  unfold gcBase
+  simp only
+  split
+  · exact Nat.min_le_left _ _
+  · exact Nat.le_refl _
+
+/-- what tryRunGC commits is determined by `gcTarget` (the function tied to the Go source by translation,
+Proofs/GoFuncs/C02.lean) and `gcPagesTill`. -/
+theorem gcRun_batches (H : Hist) (B : Nat) (cfg : GcCfg) (g : GNode) (old new : Nat) (gx : Nat → Option Val → Option Val)
+    (hnew : g.n.db Key.curBlock = some (Val.ptr new)) :
+    (gcRun H B cfg g old gx).2 =
+      match gcTarget cfg new old with
+      | none => []
+      | some tgt =>
+        if gcPagesTill B g.n.db tgt > 0 then [[W.trans (gcSel tgt gx)], [W.trans (dropPages (gcPagesTill B g.n.db tgt))]]
+        else [[W.trans (gcSel tgt gx)]] := by
+  unfold gcRun gcTarget
+  simp only [hnew]
+  by_cases h1 : new < cfg.mtb
+  · simp [h1]
+  · by_cases h2 : (gcBase cfg new / cfg.gcp * cfg.gcp > cfg.gcp ∧ new / cfg.gcp ≠ old / cfg.gcp)
+    · by_cases h3 : gcPagesTill B g.n.db (gcBase cfg new / cfg.gcp * cfg.gcp) > 0
+      · rw [if_neg h1, if_pos h2, if_pos h3, if_neg h1, if_pos h2]; simp only [if_pos h3]
+      · rw [if_neg h1, if_pos h2, if_neg h3, if_neg h1, if_pos h2]; simp only [if_neg h3]
+    · rw [if_neg h1, if_neg h2, if_neg h1, if_neg h2]
+
 /-- tryRunGC keeps everything consistent (any positive MaxTraceableBlocks, any GCP): the state after it, and the backend after
 each of its direct commits. -/
 theorem gstep_gcRun_ok {H : Hist} {B : Nat} (cfg : GcCfg) (hB : 1 < B) (hm : 0 < cfg.mtb) {g : GNode} (hs : GState H B g)
@@ -541,10 +568,11 @@ theorem gstep_gcRun_ok {H : Hist} {B : Nat} (cfg : GcCfg) (hB : 1 < B) (hm : 0 <
           have := m3.ch; rwa [hmv, m1] at this
         have hmle := m3.le
         have hnh : new ≤ g.n.height := hi.ph new hnew
-        have htle : (new - cfg.mtb) / cfg.gcp * cfg.gcp ≤ new - cfg.mtb := Nat.div_mul_le_self _ _
-        have htP : (new - cfg.mtb) / cfg.gcp * cfg.gcp ≤ new / cfg.gcp * cfg.gcp :=
-          Nat.mul_le_mul_right _ (Nat.div_le_div_right (Nat.sub_le _ _))
-        generalize (new - cfg.mtb) / cfg.gcp * cfg.gcp = tgt at htle htP hcond ⊢
+        have hbase : gcBase cfg new ≤ new - cfg.mtb := gcBase_le cfg new
+        have htle : gcBase cfg new / cfg.gcp * cfg.gcp ≤ new - cfg.mtb := Nat.le_trans (Nat.div_mul_le_self _ _) hbase
+        have htP : gcBase cfg new / cfg.gcp * cfg.gcp ≤ new / cfg.gcp * cfg.gcp :=
+          Nat.mul_le_mul_right _ (Nat.div_le_div_right (Nat.le_trans hbase (Nat.sub_le _ _)))
+        generalize gcBase cfg new / cfg.gcp * cfg.gcp = tgt at htle htP hcond ⊢
         have ht1 : tgt + cfg.mtb ≤ new := by omega
         -- transfer / MPT GC on the backend
         have hi1 := ginv_gcsel hi tgt gx (by omega)
@@ -628,11 +656,9 @@ theorem gstep_blockWait_eq (H : Hist) (B : Nat) (cfg : GcCfg) (g : GNode) :
   have hb : ∀ n : Node, (step H B n .block).2 = none := fun _ => rfl
   simp only [gstep, blockWait, hh, hb, Option.toList, List.nil_append, List.append_nil]
 
-theorem gstep_ok {H : Hist} {B : Nat} (cfg : GcCfg) (hB : 1 < B) (hm : 0 < cfg.mtb) {g : GNode} (hs : GState H B g) (o : GOp)
-    (ho : o.leaky = false) :
+theorem gstep_ok {H : Hist} {B : Nat} (cfg : GcCfg) (hB : 1 < B) (hm : 0 < cfg.mtb) {g : GNode} (hs : GState H B g) (o : GOp) :
     StepOKw H B g (gstep H B cfg g o).1 (gstep H B cfg g o).2 := by
   cases o with
-  | blockWaitRC => simp [GOp.leaky] at ho
   | base o => exact (gstep_base_ok cfg hB hs o).weak
   | gcRun old gx => exact (gstep_gcRun_ok cfg hB hm hs old gx).weak
   | blockWait =>
@@ -642,29 +668,27 @@ theorem gstep_ok {H : Hist} {B : Nat} (cfg : GcCfg) (hB : 1 < B) (hm : 0 < cfg.m
     have s3 := (gstep_base_ok cfg hB s2.1 .block).weak
     exact s1.comp (s2.comp s3)
 
-theorem gstate_grunFrom {H : Hist} {B : Nat} (cfg : GcCfg) (hB : 1 < B) (hm : 0 < cfg.mtb) {g : GNode} (hs : GState H B g) (ops : List GOp)
-    (hno : ∀ o ∈ ops, o.leaky = false) :
+theorem gstate_grunFrom {H : Hist} {B : Nat} (cfg : GcCfg) (hB : 1 < B) (hm : 0 < cfg.mtb) {g : GNode} (hs : GState H B g) (ops : List GOp) :
     GState H B (grunFrom H B cfg g ops).1 := by
   induction ops generalizing g with
   | nil => exact hs
   | cons o r ih =>
     simp only [grunFrom]
-    exact ih (gstep_ok cfg hB hm hs o (hno o (by simp))).1 (fun x hx => hno x (by simp [hx]))
+    exact ih (gstep_ok cfg hB hm hs o).1
 
-theorem gheight_mono {H : Hist} {B : Nat} (cfg : GcCfg) (hB : 1 < B) (hm : 0 < cfg.mtb) {g : GNode} (hs : GState H B g) (ops : List GOp)
-    (hno : ∀ o ∈ ops, o.leaky = false) :
+theorem gheight_mono {H : Hist} {B : Nat} (cfg : GcCfg) (hB : 1 < B) (hm : 0 < cfg.mtb) {g : GNode} (hs : GState H B g) (ops : List GOp) :
     g.n.height ≤ (grunFrom H B cfg g ops).1.n.height ∧ g.n.hdrHeight ≤ (grunFrom H B cfg g ops).1.n.hdrHeight := by
   induction ops generalizing g with
   | nil => exact ⟨Nat.le_refl _, Nat.le_refl _⟩
   | cons o r ih =>
     simp only [grunFrom]
-    obtain ⟨s1, _, s3, s4, _⟩ := gstep_ok cfg hB hm hs o (hno o (by simp))
-    obtain ⟨a, b⟩ := ih s1 (fun x hx => hno x (by simp [hx]))
+    obtain ⟨s1, _, s3, s4, _⟩ := gstep_ok cfg hB hm hs o
+    obtain ⟨a, b⟩ := ih s1
     exact ⟨Nat.le_trans s3 a, Nat.le_trans s4 b⟩
 
 /-- the backend after every prefix of the batches of a whole schedule is consistent on its own. -/
 theorem gprefix_ok {H : Hist} {B : Nat} (cfg : GcCfg) (hB : 1 < B) (hm : 0 < cfg.mtb) {g : GNode} (hs : GState H B g) (ops : List GOp)
-    (hno : ∀ o ∈ ops, o.leaky = false) (k : Nat) (hk : k ≤ (grunFrom H B cfg g ops).2.length) :
+    (k : Nat) (hk : k ≤ (grunFrom H B cfg g ops).2.length) :
     DiskOK H B (grunFrom H B cfg g ops).1.n.height (grunFrom H B cfg g ops).1.n.hdrHeight
       (foldBatches ((grunFrom H B cfg g ops).2.take k) g.n.db) := by
   induction ops generalizing g k with
@@ -673,9 +697,8 @@ theorem gprefix_ok {H : Hist} {B : Nat} (cfg : GcCfg) (hB : 1 < B) (hm : 0 < cfg
     exact hs.disk
   | cons o r ih =>
     simp only [grunFrom] at hk ⊢
-    obtain ⟨s1, s2, s3, s4, s5⟩ := gstep_ok cfg hB hm hs o (hno o (by simp))
-    have hno' : ∀ x ∈ r, x.leaky = false := fun x hx => hno x (by simp [hx])
-    obtain ⟨m1, m2⟩ := gheight_mono cfg hB hm s1 r hno'
+    obtain ⟨s1, s2, s3, s4, s5⟩ := gstep_ok cfg hB hm hs o
+    obtain ⟨m1, m2⟩ := gheight_mono cfg hB hm s1 r
     by_cases c : k ≤ (gstep H B cfg g o).2.length
     · rw [List.take_append_of_le_length c]
       exact (s5 k c).mono m1 m2
@@ -683,7 +706,7 @@ theorem gprefix_ok {H : Hist} {B : Nat} (cfg : GcCfg) (hB : 1 < B) (hm : 0 < cfg
       rw [List.take_append, List.take_of_length_le (by omega)]
       simp only [Nat.add_sub_cancel_left]
       rw [foldBatches_append, ← s2]
-      apply ih s1 hno'
+      apply ih s1
       simp at hk; omega
 
 /-! ### AddBlock with a flush during its back-pressure wait -/
